@@ -26,11 +26,14 @@ package types
 // tweaked key for a schnorr key). TRUSTED: btcd's schnorr / taproot functions are outside the verified subset.
 //@ smt (declare-fun sysAddrScript (T_relayer_types_PublicKey Bytes) Bool)
 
+// The link to the uninterpreted predicate stays an assumption (ensures-assumed: callers read the result as sysAddrScript);
+// what the body is PROVED to do: an accepted script is exactly OP_0 PUSH20 hash160(secp256k1 key) (22 bytes), or has the
+// P2TR shape OP_1 PUSH32 <32 bytes> (34 bytes; the tweaked-key comparison itself is btcd code, not verified).
 //@ func VerifySystemAddressScript
 //@ property C05 C17
-//@ trusted
 //@ requires pubkey != nil
-//@ ensures result == sysAddrScript(*pubkey, script)
+//@ ensures-assumed spec: result == sysAddrScript(*pubkey, script)
+//@ ensures pays_key: result ==> (len(script) == 22 && script[0] == 0 && script[1] == 20 && script[2:] == hash160(pubkey.GetSecp256K1())) || (len(script) == 34 && script[0] == 81 && script[1] == 32)
 //@ modifies nothing
 
 // le64flat(a, off, n): the little-endian 8-byte encodings of a[off], ..., a[off+n-1], concatenated
@@ -167,4 +170,23 @@ package types
 //@ property C01 C02
 //@ requires req != nil && req.Pubkey != nil
 //@ ensures payload: result == encpk(req.Pubkey)
+//@ modifies nothing
+
+// ---- system transactions handed to the execution layer (C03 "credited amount plus tax equals the output value", C06) ----
+// The transaction value itself is go-ethereum code (ethtypes.NewTx / NewGoatTx: opaque); callers identify the result with
+// the uninterpreted ethtx_deposit / ethtx_paid of the receipt and the nonce (ensures-assumed). What is PROVED of the bodies:
+// the satoshi -> wei scaling is done without any wrapping machine arithmetic (nooverflow: every uint64/int64 add, sub
+// and mul of the body stays in range; the unchanged code multiplies in math/big only, so no such obligation arises on it).
+//@ func (*DepositExecReceipt).EthTx
+//@ property C03 C06
+//@ requires d != nil
+//@ ensures-assumed identity: result == ethtx_deposit(d, seq) && result != nil
+//@ opt nooverflow=1
+//@ modifies nothing
+
+//@ func (*WithdrawalExecReceipt).EthTx
+//@ property C05 C06
+//@ requires d != nil
+//@ ensures-assumed identity: result == ethtx_paid(d, seq) && result != nil
+//@ opt nooverflow=1
 //@ modifies nothing
